@@ -175,7 +175,22 @@ def extract(ctx):
         with open(path, "w") as fh:
             fh.write(new)
     ctx.extra["extracted"] = {k: v for k, v in c.items() if k != "chains"}
+    _extract_gen(ctx)
     return c
+
+
+def _extract_gen(ctx):
+    """second tie: one iteration of check/get/set/unset/push/pop_states translated to Lean from the CURRENT source
+    (raises pygen.Unsupported when a function left the translated subset; run.py records that as a proof problem — a
+    broken proof obligation, not a crash)"""
+    import pygen_pxpolicy
+    if pygen_pxpolicy.extract_policy(ctx):
+        ctx.notes.append("I2N/Extracted/GenPolicy.lean changed: the source of check/get/set/unset/push/pop_states differs "
+                         "from the one the committed file was generated from (getOne/setOne/unsetOne/checkOne/pushOne"
+                         "_matches_source are re-checked)")
+    ctx.extra["regenerated"] = ("lean/I2N/Extracted/GenPolicy.lean (one iteration of check_states, get_states, "
+                                "set_states, unset_states, push_states, pop_states via harness/pygen_pxpolicy.py + "
+                                "harness/pygen.py)")
 
 
 def _load_consts():
